@@ -8,11 +8,47 @@ open Nomt.Wal (PageDiff)
 
 variable {Node VH : Type} [DecidableEq Node] [DecidableEq VH] (H : Hasher Node VH) (ps : PageSet Node)
 
-/-- a page of the page set that can be loaded on the stack: present, loaded from the hash table (no leaf counters), 126
-slots, and its slots are what the flat store holds -/
-def Loadable (st : Store Node) (Q : PageId) : Prop :=
-  ∃ pg b, ps.get Q = some (pg, .persisted b) ∧ pg.nodes.length = 126 ∧
+/-- the origins `build_stack` may meet: a page loaded from the hash table (not for a reconstructor, `Z`), or a reconstructed page
+with the counters `0 / 0` (the first elided page `reconstruct` inserts) -/
+def OriginZ (Z : Prop) (o : Origin) : Prop :=
+  ((∃ b, o = .persisted b) ∧ ¬ Z) ∨ (∃ d, o = .reconstructed 0 0 d)
+
+/-- a page of the page set that can be loaded on the stack: present with an admissible origin, 126 slots, and its slots are what
+the flat store holds -/
+def Loadable (Z : Prop) (st : Store Node) (Q : PageId) : Prop :=
+  ∃ pg o, ps.get Q = some (pg, o) ∧ OriginZ Z o ∧ pg.nodes.length = 126 ∧
     ∀ q, q ≠ [] → q.length ≤ 256 → specPage q = Q → pg.nodes.getD (specIndex q) H.term = st q
+
+theorem new_pageId (pid : PageId) (pg : Page Node) (d : PageDiff) (o : Origin) :
+    (StackPage.new pid pg d o).pageId = pid := by cases o <;> rfl
+
+theorem sum_clOf_zero : ∀ (l : List (StackPage Node)), (∀ sp ∈ l, sp.childrenLeaves = none) → (l.map clOf).sum = 0
+  | [], _ => rfl
+  | x :: xs, h => by
+    simp only [List.map_cons, List.sum_cons]
+    rw [sum_clOf_zero xs (fun sp hsp => h sp (List.mem_cons_of_mem _ hsp))]
+    unfold clOf; rw [h x (by simp)]; rfl
+
+/-- what the simulation needs of a page `build_stack` pushes -/
+def PushedOK (Z : Prop) (st : Store Node) (sp : StackPage Node) : Prop :=
+  PageMatches H sp st ∧ CountersOK sp ∧ DiffOK H ps sp ∧ sp.childrenLeaves = none ∧
+    (Z → sp.prevChildrenLeaves = some 0 ∧ sp.pageLeaves = some 0)
+
+theorem pushed_new (Z : Prop) (st : Store Node) (cur : PageId) (pg : Page Node) (o : Origin)
+    (hget : ps.get cur = some (pg, o)) (ho : OriginZ Z o) (hl126 : pg.nodes.length = 126)
+    (hm : ∀ q, q ≠ [] → q.length ≤ 256 → specPage q = cur → pg.nodes.getD (specIndex q) H.term = st q) :
+    PushedOK H ps Z st (StackPage.new cur pg PageDiff.empty o) := by
+  have hdiff : ∀ o' : Origin, ps.get cur = some (pg, o') → DiffOK H ps (StackPage.new cur pg PageDiff.empty o') := by
+    intro o' hg
+    refine ⟨pg.nodes, Or.inr ⟨pg.elided, o', ?_⟩, ?_⟩
+    · cases o' <;> exact hg
+    · intro i _ hne
+      cases o' <;> exact absurd rfl hne
+  rcases ho with ⟨⟨b, hb⟩, hz⟩ | ⟨d, hd⟩
+  · subst hb
+    exact ⟨⟨hl126, fun q hq hql hqp => hm q hq hql hqp⟩, Or.inl ⟨rfl, rfl⟩, hdiff _ hget, rfl, fun h => absurd h hz⟩
+  · subst hd
+    exact ⟨⟨hl126, fun q hq hql hqp => hm q hq hql hqp⟩, Or.inr ⟨rfl, rfl⟩, hdiff _ hget, rfl, fun _ => ⟨rfl, rfl⟩⟩
 
 /-- `cur`, its parent page, … (`n` ids) -/
 def idsDown : PageId → Nat → List PageId
@@ -25,10 +61,10 @@ theorem idsDown_length (cur : PageId) (n : Nat) : (idsDown cur n).length = n := 
   | succ n ih => simp [idsDown, ih]
 
 /-- the pages `build_stack` pushes below a target id `T` (a prefix of `cur`) -/
-theorem pushLoop_some (st : Store Node) (T : PageId) : ∀ (n : Nat) (cur : PageId), cur.length = T.length + n → T <+: cur →
-    (∀ Q, Q <+: cur → T.length < Q.length → Loadable H ps st Q) →
+theorem pushLoop_some (Z : Prop) (st : Store Node) (T : PageId) : ∀ (n : Nat) (cur : PageId), cur.length = T.length + n → T <+: cur →
+    (∀ Q, Q <+: cur → T.length < Q.length → Loadable H ps Z st Q) →
     ∃ l, pushLoop ps (some T) (cur.length + 1) cur = .ok l ∧ l.map (·.pageId) = idsDown cur n ∧
-      (∀ sp ∈ l, PageMatches H sp st ∧ CountersOK sp ∧ DiffOK H ps sp) := by
+      (∀ sp ∈ l, PushedOK H ps Z st sp) := by
   intro n
   induction n with
   | zero =>
@@ -41,7 +77,7 @@ theorem pushLoop_some (st : Store Node) (T : PageId) : ∀ (n : Nat) (cur : Page
     intro cur hlen hpre hload
     have hne : cur ≠ T := by intro e; rw [e] at hlen; omega
     have hcne : cur ≠ [] := by intro e; rw [e] at hlen; simp at hlen
-    obtain ⟨pg, b, hget, hl126, hm⟩ := hload cur (List.prefix_refl _) (by omega)
+    obtain ⟨pg, o, hget, ho, hl126, hm⟩ := hload cur (List.prefix_refl _) (by omega)
     have hpar : parentPageId cur = cur.dropLast := by unfold parentPageId; rw [if_neg hcne]
     have hdl : cur.dropLast.length = T.length + n := by rw [List.length_dropLast]; omega
     have hpre' : T <+: cur.dropLast := by
@@ -57,61 +93,58 @@ theorem pushLoop_some (st : Store Node) (T : PageId) : ∀ (n : Nat) (cur : Page
       exact hload Q (List.IsPrefix.trans hQ (List.dropLast_prefix _)) hQl)
     have hfuel : cur.dropLast.length + 1 = cur.length := by
       rw [List.length_dropLast]; have : 1 ≤ cur.length := List.length_pos_iff.mpr hcne; omega
-    refine ⟨StackPage.new cur pg PageDiff.empty (.persisted b) :: l, ?_, ?_, ?_⟩
+    refine ⟨StackPage.new cur pg PageDiff.empty o :: l, ?_, ?_, ?_⟩
     · unfold pushLoop
       rw [if_neg (by intro e; injection e with e; exact hne e), hget]
       simp only
       rw [if_neg hcne, hpar, ← hfuel, hl]
-    · simp only [List.map_cons, idsDown, hids]; rfl
+    · simp only [List.map_cons, idsDown, hids, new_pageId]
     · intro sp hsp
       rcases List.mem_cons.mp hsp with e | hsp'
       · rw [e]
-        exact ⟨⟨hl126, fun q hq hql hqp => hm q hq hql hqp⟩, Or.inl ⟨rfl, rfl⟩,
-          ⟨pg.nodes, Or.inr ⟨pg.elided, _, hget⟩, fun i _ hne => absurd rfl hne⟩⟩
+        exact pushed_new H ps Z st cur pg o hget ho hl126 hm
       · exact hprops sp hsp'
 
 /-- the pages `build_stack` pushes without a target: down to the root page -/
-theorem pushLoop_none (st : Store Node) : ∀ (n : Nat) (cur : PageId), cur.length = n →
-    (∀ Q, Q <+: cur → Loadable H ps st Q) →
+theorem pushLoop_none (Z : Prop) (st : Store Node) : ∀ (n : Nat) (cur : PageId), cur.length = n →
+    (∀ Q, Q <+: cur → Loadable H ps Z st Q) →
     ∃ l, pushLoop ps none (cur.length + 1) cur = .ok l ∧ l.map (·.pageId) = idsDown cur (n + 1) ∧
-      (∀ sp ∈ l, PageMatches H sp st ∧ CountersOK sp ∧ DiffOK H ps sp) := by
+      (∀ sp ∈ l, PushedOK H ps Z st sp) := by
   intro n
   induction n with
   | zero =>
     intro cur hlen hload
     have hcur : cur = [] := List.eq_nil_of_length_eq_zero hlen
     subst hcur
-    obtain ⟨pg, b, hget, hl126, hm⟩ := hload [] (List.prefix_refl _)
-    refine ⟨[StackPage.new [] pg PageDiff.empty (.persisted b)], ?_, rfl, ?_⟩
+    obtain ⟨pg, o, hget, ho, hl126, hm⟩ := hload [] (List.prefix_refl _)
+    refine ⟨[StackPage.new [] pg PageDiff.empty o], ?_, by simp [idsDown, new_pageId], ?_⟩
     · unfold pushLoop
       rw [if_neg (by simp), hget]
       simp
     · intro sp hsp
       rw [List.mem_singleton] at hsp
       rw [hsp]
-      exact ⟨⟨hl126, fun q hq hql hqp => hm q hq hql hqp⟩, Or.inl ⟨rfl, rfl⟩,
-        ⟨pg.nodes, Or.inr ⟨pg.elided, _, hget⟩, fun i _ hne => absurd rfl hne⟩⟩
+      exact pushed_new H ps Z st [] pg o hget ho hl126 hm
   | succ n ih =>
     intro cur hlen hload
     have hcne : cur ≠ [] := by intro e; rw [e] at hlen; simp at hlen
-    obtain ⟨pg, b, hget, hl126, hm⟩ := hload cur (List.prefix_refl _)
+    obtain ⟨pg, o, hget, ho, hl126, hm⟩ := hload cur (List.prefix_refl _)
     have hpar : parentPageId cur = cur.dropLast := by unfold parentPageId; rw [if_neg hcne]
     have hdl : cur.dropLast.length = n := by rw [List.length_dropLast]; omega
     obtain ⟨l, hl, hids, hprops⟩ := ih cur.dropLast hdl (by
       intro Q hQ
       exact hload Q (List.IsPrefix.trans hQ (List.dropLast_prefix _)))
     have hfuel : cur.dropLast.length + 1 = cur.length := by omega
-    refine ⟨StackPage.new cur pg PageDiff.empty (.persisted b) :: l, ?_, ?_, ?_⟩
+    refine ⟨StackPage.new cur pg PageDiff.empty o :: l, ?_, ?_, ?_⟩
     · unfold pushLoop
       rw [if_neg (by simp), hget]
       simp only
       rw [if_neg hcne, hpar, ← hfuel, hl]
-    · simp only [List.map_cons, idsDown, hids]; rfl
+    · simp only [List.map_cons, idsDown, hids, new_pageId]
     · intro sp hsp
       rcases List.mem_cons.mp hsp with e | hsp'
       · rw [e]
-        exact ⟨⟨hl126, fun q hq hql hqp => hm q hq hql hqp⟩, Or.inl ⟨rfl, rfl⟩,
-          ⟨pg.nodes, Or.inr ⟨pg.elided, _, hget⟩, fun i _ hne => absurd rfl hne⟩⟩
+        exact pushed_new H ps Z st cur pg o hget ho hl126 hm
       · exact hprops sp hsp'
 
 /-! ## chains of `idsDown` -/
@@ -202,7 +235,7 @@ theorem sim_buildStack {w : Walker Node} {a : TW Node} (h : Sim H ps w a) (posit
     (htarget : ∀ top rest, w.stack = top :: rest → top.pageId <+: specPage position.path)
     (hload : ∀ Q, Q <+: specPage position.path →
       (∀ top rest, w.stack = top :: rest → top.pageId.length < Q.length) →
-      (∀ pp, w.parentPage = some pp → pp.length < Q.length) → Loadable H ps a.store Q) :
+      (∀ pp, w.parentPage = some pp → pp.length < Q.length) → Loadable H ps (w.reconstruction = true) a.store Q) :
     ∃ w', w.buildStack H ps position = .ok w' ∧ Sim H ps w' ({ a with pos := position.path } : TW Node) ∧ Same w w' ∧
       w'.childPageRoots = w.childPageRoots := by
   have hdepth : 1 ≤ position.depth := by
@@ -243,7 +276,7 @@ theorem sim_buildStack {w : Walker Node} {a : TW Node} (h : Sim H ps w a) (posit
   simp only
   -- the pages pushed
   have hpush : ∃ l, pushLoop ps w.stackTarget ((specPage position.path).length + 1) (specPage position.path) = .ok l ∧
-      (∀ sp ∈ l, PageMatches H sp a.store ∧ CountersOK sp ∧ DiffOK H ps sp) ∧
+      (∀ sp ∈ l, PushedOK H ps (w.reconstruction = true) a.store sp) ∧
       ChainBelow w.parentPage (l.map (·.pageId) ++ w.stack.map (·.pageId)) ∧
       (∀ sp rest, l ++ w.stack = sp :: rest → sp.pageId = specPage position.path) ∧ l ++ w.stack ≠ [] := by
     unfold Walker.stackTarget
@@ -253,7 +286,7 @@ theorem sim_buildStack {w : Walker Node} {a : TW Node} (h : Sim H ps w a) (posit
       have hT := htarget top rest hst
       obtain ⟨n, hn⟩ : ∃ n, (specPage position.path).length = top.pageId.length + n :=
         ⟨(specPage position.path).length - top.pageId.length, by have := hT.length_le; omega⟩
-      obtain ⟨l, hl, hids, hprops⟩ := pushLoop_some H ps a.store top.pageId n (specPage position.path) hn hT (by
+      obtain ⟨l, hl, hids, hprops⟩ := pushLoop_some H ps (w.reconstruction = true) a.store top.pageId n (specPage position.path) hn hT (by
         intro Q hQ hQl
         apply hload Q hQ
         · intro top' rest' e
@@ -299,7 +332,7 @@ theorem sim_buildStack {w : Walker Node} {a : TW Node} (h : Sim H ps w a) (posit
       simp only
       cases hp : w.parentPage with
       | none =>
-        obtain ⟨l, hl, hids, hprops⟩ := pushLoop_none H ps a.store (specPage position.path).length
+        obtain ⟨l, hl, hids, hprops⟩ := pushLoop_none H ps (w.reconstruction = true) a.store (specPage position.path).length
           (specPage position.path) rfl (by
             intro Q hQ
             apply hload Q hQ
@@ -332,7 +365,7 @@ theorem sim_buildStack {w : Walker Node} {a : TW Node} (h : Sim H ps w a) (posit
           · exact absurd (hpre.eq_of_length (Nat.le_antisymm hpre.length_le hge)) hneq
         obtain ⟨n, hn⟩ : ∃ n, (specPage position.path).length = pp.length + n :=
           ⟨(specPage position.path).length - pp.length, by omega⟩
-        obtain ⟨l, hl, hids, hprops⟩ := pushLoop_some H ps a.store pp n (specPage position.path) hn hpre (by
+        obtain ⟨l, hl, hids, hprops⟩ := pushLoop_some H ps (w.reconstruction = true) a.store pp n (specPage position.path) hn hpre (by
           intro Q hQ hQl
           apply hload Q hQ
           · intro top' rest' e; rw [hst] at e; cases e
@@ -362,7 +395,23 @@ theorem sim_buildStack {w : Walker Node} {a : TW Node} (h : Sim H ps w a) (posit
   have hst' : ({ w with position := position } : Walker Node).stackTarget = w.stackTarget := rfl
   rw [hst', hl]
   refine ⟨_, rfl, ?_, Same.rfl' _, rfl⟩
-  refine ⟨hpw, rfl, h.root, ?_, ?_, ?_, ?_, ?_, h.norecon, h.cpr, h.outs, h.nofix, ?_⟩
+  have hrecon : ReconInv H ({ w with position := position, stack := l ++ w.stack } : Walker Node)
+      ({ a with pos := position.path } : TW Node) := by
+    refine ⟨h.recon.kinds, ?_, ?_, h.recon.outIds⟩
+    · intro hr
+      obtain ⟨h1, h2⟩ := h.recon.rc hr
+      refine ⟨h1, ?_⟩
+      intro sp hsp
+      rcases List.mem_append.mp hsp with h3 | h3
+      · exact (hprops sp h3).2.2.2.2 hr
+      · exact h2 sp h3
+    · intro hr
+      have hacc := h.recon.acct hr
+      have hz : (l.map clOf).sum = 0 := sum_clOf_zero l (fun sp hsp => (hprops sp hsp).2.2.2.1)
+      show ((l ++ w.stack).map clOf).sum ≤ (w.outputPages.map (outLeaves H)).sum
+      rw [List.map_append, List.sum_append, hz]
+      omega
+  refine ⟨hpw, rfl, h.root, ?_, ?_, ?_, ?_, ?_, hrecon, h.cpr, h.outs, h.nofix, ?_⟩
   · show l ++ w.stack = [] ↔ position.path.length ≤ 6 * k0 w.parentPage
     constructor
     · intro e; exact absurd e hnonempty
@@ -381,7 +430,7 @@ theorem sim_buildStack {w : Walker Node} {a : TW Node} (h : Sim H ps w a) (posit
     · exact h.counters sp h1
   · intro sp hsp
     rcases List.mem_append.mp hsp with h1 | h1
-    · exact (hprops sp h1).2.2
+    · exact (hprops sp h1).2.2.1
     · exact h.diffs sp h1
 
 /-- `build_stack` to the root position (only possible with an empty stack and no parent page) -/
@@ -397,7 +446,7 @@ theorem sim_buildStack_root {w : Walker Node} {a : TW Node} (h : Sim H ps w a) (
   rw [hst]
   simp only [List.length_nil, Walker.popAll]
   refine ⟨_, rfl, ?_, ⟨hpar.symm, rfl, rfl, rfl, rfl⟩, rfl⟩
-  refine ⟨hpw, hnil, h.root, ?_, ?_, ?_, ?_, ?_, h.norecon, h.cpr, h.outs, h.nofix, ?_⟩
+  refine ⟨hpw, hnil, h.root, ?_, ?_, ?_, ?_, ?_, h.recon.cast H rfl rfl rfl (by rw [hst]) rfl, h.cpr, h.outs, h.nofix, ?_⟩
   · simp
   · intro sp rest e; cases e
   · trivial
@@ -410,7 +459,10 @@ theorem sim_buildStack_root {w : Walker Node} {a : TW Node} (h : Sim H ps w a) (
 theorem sim_replaceTerminal (hs : H.Sound) (hfresh : ∀ P, (ps.fresh P).length = 126) {S' : List (Key × VH)}
     (hk : KeysOK S') {w : Walker Node} {a : TW Node} (h : Sim H ps w a)
     (hscope : (a.pos = [] ∧ w.parentPage = none) ∨ 6 * k0 w.parentPage < a.pos.length)
-    (hterm : H.kind a.cur ≠ .internal) :
+    (hterm : w.reconstruction = false → H.kind a.cur ≠ .internal)
+    (Lfin : List (PageId × Store Node))
+    (hfin : w.reconstruction = true → SmallBy H ps Lfin ∧
+      (a.replaceTerminal H (cfgOf H ps w.parentPage) (sub S' a.pos)).log <+: Lfin) :
     ∃ w', w.replaceTerminal H ps (sub S' a.pos) = .ok w' ∧
       Sim H ps w' (a.replaceTerminal H (cfgOf H ps w.parentPage) (sub S' a.pos)) ∧ Same w w' ∧
       w'.childPageRoots = w.childPageRoots := by
@@ -427,10 +479,20 @@ theorem sim_replaceTerminal (hs : H.Sound) (hfresh : ∀ P, (ps.fresh P).length 
         unfold Pos.isRoot; rw [hdep]; simp; exact hne
       rw [if_neg this]
       exact sim_node H ps h hd
+  unfold TW.replaceTerminal at hfin
+  rw [buildEvents_sub H hk a.pos hlen] at hfin
+  simp only at hfin
   unfold Walker.replaceTerminal TW.replaceTerminal
   rw [hnode]
   simp only
-  rw [if_neg (by intro hh; exact hterm hh.2)]
+  rw [if_neg (by
+    intro hh
+    have hr : w.reconstruction = false := by
+      have := hh.1
+      cases hq : w.reconstruction with
+      | false => rfl
+      | true => rw [hq] at this; exact absurd rfl this
+    exact hterm hr hh.2)]
   rw [hdep, buildEvents_sub H hk a.pos hlen]
   simp only
   -- the calls are safe
@@ -452,9 +514,9 @@ theorem sim_replaceTerminal (hs : H.Sound) (hfresh : ∀ P, (ps.fresh P).length 
           rw [this]; rfl)
         hsc' (256 - a.pos.length) a.pos none a.pos a rfl (List.prefix_refl _) hlen he (List.prefix_refl _) ⟨rfl, rfl⟩
       simpa using this
-  obtain ⟨w2, hw2, hs2, hsame2, hcpr2⟩ := sim_visitAll H ps hs hfresh a.pos.length _
+  obtain ⟨w2, hw2, hs2, hsame2, hcpr2⟩ := sim_visitAll H ps hs hfresh a.pos.length Lfin _
     ({ w with prevNode := some a.cur } : Walker Node) a (sim_other_fields H ps h w.siblingStack (some a.cur) w.lastPosition)
-    hsafe
+    hsafe hfin
   rw [hw2]
   simp only
   -- the position is back where it started
